@@ -58,7 +58,7 @@ def weave_raw_leaves(u):
              'old(w).solo ==> (r.is_ok() ==> final(w).files == old(w).files.remove(pv(path)) && final(w).dirs == old(w).dirs '
              '&& final(w).inodes == old(w).inodes && final(w).hard_faults == old(w).hard_faults)'),
             ('C05 C18:error-means-hard-fault', 'old(w).solo ==> (r.is_err() ==> final(w).hard_faults > old(w).hard_faults && final(w).same_fs(*old(w)))'),
-            ('', 'final(w).stepped(*old(w)) && final(w).now == old(w).now && final(w).published == old(w).published && final(w).listed == old(w).listed'),
+            ('', 'final(w).kept(*old(w)) && final(w).now == old(w).now && final(w).published == old(w).published && final(w).listed == old(w).listed'),
         ])
 
     # spec helper that mentions the crate's own constant
